@@ -67,6 +67,7 @@ class Tx:
         self.rown = {}        # pgno -> packet number (0 = not recorded) -> set of payloads transmitted as that row
         self.cells = {}       # pgno -> set of (row, column) overridden by X/26 data transmitted for this page
         self.rowidx = []      # (index into pk, pgno, packet number) of the Level 1 rows sent by page()
+        self.x26t = {}        # pgno -> designation -> set of the 13-triplet tuples transmitted as X/26/<designation> of that page
 
     def add(self, b, tag, pgno=None, n=0):
         assert len(b) == 42
@@ -89,13 +90,22 @@ class Tx:
         for p, d in t.rown.items():
             for n, r in d.items():
                 self.rown.setdefault(p, {}).setdefault(n, set()).update(r)
+        if self.x26t is not None and getattr(t, "x26t", None) is not None:
+            for p, d in t.x26t.items():
+                for n, r in d.items():
+                    self.x26t.setdefault(p, {}).setdefault(n, set()).update(r)
+        else:
+            self.x26t = None
 
     def knowledge(self):
         return {"sent": sorted([pg, sn] for pg, sn in self.sent_pages),
                 "rows": {"%x" % pg: {str(n): sorted(bytes(r).hex() for r in rs) for n, rs in d.items()}
                          for pg, d in self.rown.items()},
                 "cells": {"%x" % pg: sorted([r, c] for r, c in cs) for pg, cs in self.cells.items()},
-                "cols": {"%x" % pg: sorted(cs) for pg, cs in self.x26cols.items()}}
+                "cols": {"%x" % pg: sorted(cs) for pg, cs in self.x26cols.items()},
+                "x26t": None if self.x26t is None else
+                        {"%x" % pg: {str(n): sorted([list(t) for t in ts] for ts in tss) for n, tss in d.items()}
+                         for pg, d in self.x26t.items()}}
 
     @staticmethod
     def from_knowledge(k):
@@ -109,6 +119,11 @@ class Tx:
                     tx.rown.setdefault(int(pg, 16), {}).setdefault(int(n), set()).add(r)
         tx.cells = {int(pg, 16): {(r, c) for r, c in cs} for pg, cs in k.get("cells", {}).items()}
         tx.x26cols = {int(pg, 16): set(cs) for pg, cs in k.get("cols", {}).items()}
+        if k.get("x26t") is None:
+            tx.x26t = None                 # written before the X/26 content rule existed: rule not applied
+        else:
+            tx.x26t = {int(pg, 16): {int(n): {tuple(tuple(t) for t in ts) for ts in tss} for n, tss in d.items()}
+                       for pg, d in k["x26t"].items()}
         tx.precise = True
         return tx
 
@@ -140,6 +155,10 @@ class Tx:
                         cols.add(a)
             for d, trips in enumerate(x26):
                 body.append((T.x26(mag8, d, trips), "x26"))
+                if self.x26t is not None:
+                    full = (list(trips) + [(0x3F, 0x1F, 0x7F)] * 13)[:13]       # the encoder pads with termination markers
+                    self.x26t.setdefault(pgno, {}).setdefault(d, set()).add(
+                        tuple((a & 0x3F, m & 0x1F, dd & 0x7F) for a, m, dd in full))
         if x27:
             links = [(rng.choice([0x100, 0x1FF, 0x234, 0x8FF, pgno]), rng.choice([0x3F7F, 0, 1])) for _ in range(6)]
             body.append((T.x27_0(mag8, links, rng.choice([0xF, 0x7, 0])), "x27"))
@@ -222,6 +241,7 @@ def interleave(rng, txs):
 def system_pages(rng):
     """MOT, MIP, BTT (+ AIT/MPT/MPT-EX via BTT links), POP and DRCS pages via MIP types"""
     tx = Tx()
+    tx.x26t = None        # packets 26 are also sent as raw triplet rows here (POP candidates): X/26 content rule off
     m = rng.choice([1, 2, 8])
     mag8 = m
     # MIP first so that later pages get their function from the page type
@@ -525,7 +545,8 @@ def stream_ops(pk, handler=True, dropped=None):
 class C03(verif.Spec):
     prop = "C03"
     comp = "ttx"
-    lean_modules = ["ZvbiModel.Props.C03", "ZvbiModel.Props.C03X26"]
+    lean_modules = ["ZvbiModel.Props.C03", "ZvbiModel.Props.C03X26", "ZvbiModel.Props.C03Tx", "ZvbiModel.Props.C03Cache",
+                    "ZvbiModel.Props.C03Join", "ZvbiModel.Props.C03Mip", "ZvbiModel.Props.C03Hdr8"]
     harness = "ttx_harness"
     harness_link_lib = True
     timeout_per_case = 8.0
@@ -537,12 +558,12 @@ class C03(verif.Spec):
                    "cache memory limit (2^30) is not reached", "frames arrive with regular time stamps except at `gap`"]
     trusted_base = ["harness/ttx_harness.c + lean/Driver/Ttx.lean (correspondence on generated transmissions)",
                     "lib/ttx_util.py: sender-side encoders written from EN 300 706 (checked against the Hamm model)",
-                    "cache abstracted as an MRU list (joined with the C10 cache model through put/touch events)"]
-    open_statements = ["single-error invisibility of the *stored bytes* of MIP rows (stored raw, decoded at page end; the decode is covered)",
-                       "bisimulation: raw[0][0..7] (verbatim header Hamming bytes) is never read by later steps (only same_clock does, vacuously: F24)",
-                       "refinement of the MRU-list cache abstraction by the C10 cache model (joined through Event.put / Aux.touch)",
-                       "bad_header_refused_full / subpage_number_is_transmitted_full: proved under ttxFixF21 = true (current tree), refuted for the unrepaired code",
-                       "composition of enh_fresh_after_header + x26_continuity + parity_check_ignores_unused_tail into one statement over a whole page transmission (live part of enh = the 13 k triplets of the k in-order X/26 packets since the header) needs the content of x26Triplets, only its frame is proved"]
+                    "cache abstracted as an MRU list; joined with the C10 cache model per operation (Props/C03Join, C10Ttx), the side conditions of the store along a history are assumed"]
+    open_statements = ["hdr8_never_read_full (Props/C03Hdr8): whole-history bisimulation that raw[0][0..7] (verbatim header Hamming bytes) is never read; proved are its local steps (store_lop verdict + header copy, Level 1 formatter), missing is carrying the relation through the cache (the page is stored and fetched back with these bytes)",
+                       "ttx_refined_by_cache_full (Props/C03Join): unconditional whole-history refinement of the MRU list by the cache.c model; proved: the list evolves only by get / put / clear operations over every history (cache_evolves_by_cache_operations) and each such operation is simulated (cache_operations_are_simulated); missing: discharging the side conditions of the store along a history (memory never short, network found, the decoder's page type = the page_type of the cache.c statistics, Sim under the interleaved unref calls)",
+                       "live_triplets_were_transmitted_full (Props/C03Tx): refuted for the unrepaired code (finding C03-enh-zero-filler, ttxFixEnhFiller = false); not proved for the repaired shape (needs an invariant over the cache: every cached enh array consists of transmitted triplets and unused entries)",
+                       "MIP: single-error invisibility is proved for the decode at page end and for the closing header (Props/C03Mip); the flipped byte itself stays in the assembly slot and is copied into a following MOT/BTT page of the slot (dead data, never decoded): a full-trace equality would have to be stated modulo the raw rows of non-LOP pages",
+                       "bad_header_refused_full / subpage_number_is_transmitted_full: proved under ttxFixF21 = true (current tree), refuted for the unrepaired code"]
 
     def __init__(self):
         self.meta = {}
@@ -723,6 +744,73 @@ class C03(verif.Spec):
                 for pos in ([2] if k < 0.4 else [3] if k < 0.8 else [2, 3]):
                     f[i] = (X.bad_byte(rng, f[i][0], pos), "hdr")
                 cases.append(self.tag(twin_contain(tx, pk, f, "hdr pgno at=%d" % i), "ilvhdr", tx))
+        # 9. MIP pages with uncorrectable (two bit errors) Hamming bytes in their rows.  MIP rows are stored raw and
+        #    decoded when the page ends (theorems of Props/C03Mip.lean: the decode sees them only through vbi_unham8);
+        #    fault-free run ; reset ; run with the errors, page statistics dumped after the terminating header
+        for _ in range(16 if quick else 200):
+            tx = Tx()
+            m = rng.choice([1, 2, 3, 8])
+            tx.mags.add(m)
+            simple = [0x00, 0x01, 0x02, 0x05, 0x10, 0x4F, 0x52, 0x70, 0x77, 0x79, 0x7B, 0x81, 0x82, 0xE3, 0xE5, 0xE6, 0xE7, 0xF8, 0xFC, 0xFE, 0xFF]
+            rows = {}
+            for packet in sorted(rng.sample(range(1, 9), rng.choice([1, 2, 3]))):
+                codes = [rng.choice(simple + [0x50, 0x51] * 2) for _ in range(20)]
+                rows[packet] = sum([[c & 15, c >> 4] for c in codes], [])
+            if rng.random() < 0.5:
+                packet = rng.randrange(9, 15)
+                codes = [rng.choice(simple) for _ in range(6 if packet == 14 else 18)]
+                nib = sum([[c & 15, c >> 4] for c in codes], [])
+                rows[packet] = nib + [rng.randrange(16) for _ in range(40 - len(nib))]
+            for packet in rng.sample(range(15, 26), rng.choice([0, 2, 4])):
+                rows[packet] = [rng.randrange(16) for _ in range(40)]
+            tx.sec += 1
+            tx.add(T.header(m, 0xFD, 0, text=hdr_text(m * 256 + 0xFD, tx.sec)), "hdr")
+            tx.sent_pages.add((m * 256 + 0xFD, 0))
+            for n, nib in rows.items():
+                tx.add(T.h8row(m, n, nib), "h8row", m * 256 + 0xFD, n)
+            tx.flush()
+            pk = tx.pk
+            f = [(list(b), t) for b, t in pk]
+            cand = [i for i, (b, t) in enumerate(pk) if t == "h8row"]
+            hit = []
+            for i in rng.sample(cand, min(len(cand), rng.choice([1, 1, 2]))):
+                pos = rng.randrange(2, 42)
+                f[i] = (X.bad_byte(rng, f[i][0], pos), "h8row")
+                hit.append("%d:%d" % (i, pos))
+            d = ["stat", "cached"]
+            c = ["note twin mipbad at=" + ",".join(hit)] + stream_ops(pk) + d + ["reset"] + stream_ops(f) + d
+            cases.append(self.tag(c, "mip2", tx))
+        # 10. X/26 packets lost or out of order: a page with 2-4 X/26 packets of which one (not the last) never arrives,
+        #     or is repeated behind a later one, or which arrive in a wrong order.  The decoder must drop everything behind the gap (theorems
+        #     C03.x26_continuity, C03Tx.x26_gap_drops_rest); judged by the X/26 content rule of `containment`
+        for _ in range(12 if quick else 150):
+            tx = Tx()
+            m = rng.choice([1, 2, 4, 8])
+            page = rng.choice(DEC_PAGES)
+            n = rng.choice([2, 3, 3, 4])
+            prog = X.rnd_program(rng, n)
+            chunks = X.chunk13(prog)
+            while len(chunks) < n:
+                chunks.append([(40 + rng.randrange(24), 4, rng.randrange(40)) for _ in range(13)])
+            rows = {r: rnd_text_row(rng) for r in rng.sample(range(1, 25), 3)}
+            tx.page(rng, m, page, 0, rows, x26=chunks, x26_first=rng.random() < 0.5)
+            tx.flush()
+            xi = [i for i, (b, t) in enumerate(tx.pk) if t == "x26"]
+            pk = list(tx.pk)
+            k = rng.random()
+            if k < 0.4:
+                del pk[rng.choice(xi[:-1])]                     # lost in the channel
+                how = "lost"
+            elif k < 0.7:
+                a = rng.choice(xi[:-1])                         # an earlier designation arrives once more, later
+                pk.insert(rng.choice([i for i in xi if i > a]) + 1, pk[a])
+                how = "repeated"
+            else:
+                a, b = rng.sample(xi, 2)
+                pk[a], pk[b] = pk[b], pk[a]
+                how = "swapped"
+            c = ["note x26gap " + how] + stream_ops(pk) + dumps(tx, full=False)
+            cases.append(self.tag(c, "x26gap", tx))
         return cases
 
     def tag(self, case, kind, tx):
@@ -809,6 +897,7 @@ class C03(verif.Spec):
         if tx is None:
             return None
         precise = getattr(tx, "precise", False) and not maglevel
+        zero_filler = None      # finding C03-enh-zero-filler: reported only if nothing else is wrong with the case
         sent_pg = {p for p, _ in tx.sent_pages}
         magrows = {}
         for p, rs in tx.rows.items():
@@ -832,6 +921,13 @@ class C03(verif.Spec):
             elif o.startswith("page ") and r.startswith("ok fn=0 "):
                 m = re.search(r" pgno=([0-9a-f]+) ", r)
                 pg = int(m.group(1), 16)
+                me = re.search(r" enh=([0-9a-f]+)", r)
+                if me and precise and getattr(tx, "x26t", None) is not None:
+                    w = self.x26_content(tx, pg, bytes.fromhex(me.group(1)))
+                    if w:
+                        zero_filler = zero_filler or w if w.startswith("enhancement array of a page continued") else zero_filler
+                        if not w.startswith("enhancement array of a page continued"):
+                            return w
                 m = re.search(r" raw=([0-9a-f.]+)", r)
                 rows = m.group(1).split(".")
                 for n in range(1, 26):
@@ -867,6 +963,50 @@ class C03(verif.Spec):
                         return ("cached LOP row shows a character that was not transmitted, outside the X/26 "
                                 "addressed positions (page %x row %d columns %s)" % (pg, n, ",".join(map(str, bad))))
                     return "cached LOP row that was never transmitted for this page (page %x row %d)" % (pg, n)
+        return zero_filler
+
+    @staticmethod
+    def x26_content(tx, pg, enh):
+        """X/26 CONTENT (theorems C03Tx.page_transmission_enh / x26_packet_appends_its_triplets): every entry of
+        the enhancement array of a cached Level one page before the first unused entry (address > 63) is the
+        triplet some X/26 packet transmitted FOR THIS PAGE carried in that very place: entry i = triplet i % 13
+        of a packet with designation i // 13.  (Entries of earlier transmissions of the page survive a
+        retransmission, so any transmission of the page may have supplied an entry.)"""
+        sent = tx.x26t.get(pg, {})
+        zeros = 0
+        for i in range(len(enh) // 3):
+            t = (enh[3 * i], enh[3 * i + 1], enh[3 * i + 2])
+            if t[0] > 63:
+                break
+            if any(ts[i % 13] == t for ts in sent.get(i // 13, ())):
+                continue
+            if t == (0, 0, 0):
+                zeros += 1
+                continue
+            return ("enhancement array holds a triplet that was not transmitted in this place for this page "
+                    "(page %x entry %d: address %d mode %d data %d)" % (pg, i, t[0], t[1], t[2]))
+        if zeros:
+            return ("enhancement array of a page continued from a cached copy without X/26 data is zero-filled: live "
+                    "zero triplets that were never transmitted (page %x, %d entries)" % (pg, zeros))
+        return None
+
+    @staticmethod
+    def mip_contained(clean, faulted):
+        """twin `mipbad`: a MIP row byte with two bit errors is uncorrectable; `parse_mip` must refuse the entry (it
+        stops there), never decode it as some other page type / subpage count.  So after the page ended the
+        statistics of every page are those of the error free transmission or untouched (not listed)."""
+        def stat(ops, outs):
+            for o, r in zip(ops, outs):
+                if o == "stat":
+                    return {w.split(":")[0]: w for w in r.split()[1:]}
+            return {}
+        a, b = stat(*clean), stat(*faulted)
+        for pg, w in sorted(b.items()):
+            if pg.endswith("fd") and w == pg + ":e7:ff:ffff":
+                continue        # the MIP page itself, as its header left it (its own MIP entry was not reached)
+            if a.get(pg) != w:
+                return ("page statistics decoded from a MIP entry with an uncorrectable byte (page %s: %s, error free: %s)"
+                        % (pg, w, a.get(pg, "untouched")))
         return None
 
     def fault_contained(self, clean, faulted):
@@ -896,6 +1036,10 @@ class C03(verif.Spec):
         halves = self.split_halves(case, out)
         if head.startswith("# twin contain") and len(halves) == 2:
             w = self.fault_contained(halves[0], halves[1])
+            if w:
+                return w
+        elif head.startswith("# twin mipbad") and len(halves) == 2 and tx is not None:
+            w = self.mip_contained(halves[0], halves[1])
             if w:
                 return w
         elif head.startswith("# twin") and len(halves) == 2:
